@@ -151,3 +151,47 @@ fn c19_heap_4() {
     }
     kani::cover!(failed, "comparator failed");
 }
+
+/// natural-run detection of the merge-sort driver (verbatim slice): after it, v[start..end] is a non-descending run,
+/// it is a permutation of what was there, everything outside start..end is untouched, and equal keys keep their order
+#[kani::proof]
+#[kani::unwind(8)]
+fn c19_find_run_slice() {
+    use crate::slices::find_run::find_run;
+    const N: usize = 6;
+    let mut v: [El; N] = any_els::<N>(2);
+    let orig = v;
+    let end: usize = kani::any();
+    kani::assume(end >= 1 && end <= N);
+    let fail_at: u8 = kani::any();
+    let mut calls: u8 = 0;
+    let r = find_run(&mut v, end, &mut |a: &El, b: &El| -> R {
+        calls += 1;
+        if calls == fail_at {
+            return Err(9);
+        }
+        Ok(Ok(a.0 < b.0))
+    });
+    assert!(permutation(&v, &orig), "no element lost or duplicated");
+    match r {
+        Ok(Ok(start)) => {
+            assert!(start < end, "the run is not empty");
+            let mut i = start + 1;
+            while i < end {
+                assert!(v[i - 1].0 <= v[i].0, "the detected run is non-descending");
+                i += 1;
+            }
+            let mut j = 0;
+            while j < N {
+                if j < start || j >= end {
+                    assert!(v[j] == orig[j], "elements outside the run are untouched");
+                }
+                j += 1;
+            }
+            kani::cover!(end - start >= 3 && v[start] != orig[start], "a descending run was reversed");
+            kani::cover!(end - start >= 3 && v[start] == orig[start], "an ascending run was kept");
+        }
+        Err(e) => assert!(e == 9, "the comparator's violation"),
+        Ok(Err(_)) => assert!(false, "no error value was produced"),
+    }
+}
